@@ -4,7 +4,8 @@
 use alloc::vec::Vec;
 
 use crate::rtps_messages::overall_structure::{
-    RtpsMessageHeader, RtpsMessageRead, RtpsMessageWrite, RtpsSubmessageReadKind, Submessage,
+    Endianness, RtpsMessageHeader, RtpsMessageRead, RtpsMessageWrite, RtpsSubmessageReadKind, Submessage,
+    SubmessageHeaderRead, TryReadFromBytes,
 };
 use crate::rtps_messages::submessage_elements::{FragmentNumberSet, SequenceNumberSet};
 use crate::transport::types::{EntityId, GuidPrefix, ProtocolVersion};
@@ -104,26 +105,95 @@ pub fn decode_single(buf: &[u8], header: &RtpsMessageHeader) -> RtpsMessageRead 
     }
 }
 
-/// A SequenceNumberSet built by the real constructor: `dmax` (concrete) is the highest member
-/// offset and is listed first so that numBits is the concrete value dmax + 1 from the first
-/// iteration on; membership of every lower offset is symbolic (bits of `mask`, offset i <-> bit i).
-/// `None` = empty set (numBits 0).
-pub fn any_sn_set(base: i64, dmax: Option<u32>, mask: u64) -> SequenceNumberSet {
-    match dmax {
-        None => SequenceNumberSet::new(base, []),
-        Some(d) => {
-            let lower = (0..d).filter(move |i| (mask >> (*i % 64)) & 1 == 1).map(move |i| base + i as i64);
-            SequenceNumberSet::new(base, core::iter::once(base + d as i64).chain(lower))
+/// A SequenceNumberSet value with an arbitrary base, the given (concrete) numBits and an arbitrary
+/// membership bitmap, obtained from the REAL element decoder applied to a little-endian wire image
+/// written here (base, numBits, ceil(numBits/32) symbolic words; bits at offsets >= numBits are
+/// cleared and the bit at offset numBits-1 is set, which is exactly the shape SequenceNumberSet::new
+/// produces: numBits = highest member offset + 1). Building the value through
+/// SequenceNumberSet::new from a symbolic member list makes numBits - and with it every length
+/// and cursor position of the encoder - symbolic, which does not finish (> 900 s).
+pub fn sn_set<const W: usize>(base: i64, nb: u32) -> SequenceNumberSet {
+    assert!(W == ((nb + 31) / 32) as usize && W <= 8, "harness: word count");
+    let mut b = [0u8; 44];
+    let hi = ((base >> 32) as i32).to_le_bytes();
+    let lo = (base as u32).to_le_bytes();
+    let n = nb.to_le_bytes();
+    let mut i = 0;
+    while i < 4 {
+        b[i] = hi[i];
+        b[4 + i] = lo[i];
+        b[8 + i] = n[i];
+        i += 1;
+    }
+    let mut w = 0;
+    while w < W {
+        let mut x: u32 = kani::any();
+        if w == W - 1 {
+            let r = nb % 32;
+            if r != 0 {
+                x &= !0u32 << (32 - r);
+            }
+            x |= 1u32 << (31 - (nb - 1) % 32);
+        }
+        let xb = x.to_le_bytes();
+        b[12 + 4 * w] = xb[0];
+        b[13 + 4 * w] = xb[1];
+        b[14 + 4 * w] = xb[2];
+        b[15 + 4 * w] = xb[3];
+        w += 1;
+    }
+    let mut d = &b[..12 + 4 * W];
+    match SequenceNumberSet::try_read_from_bytes(&mut d, &Endianness::LittleEndian) {
+        Ok(s) => s,
+        Err(_) => {
+            assert!(false, "harness: SequenceNumberSet image rejected");
+            unreachable!()
         }
     }
 }
 
-pub fn any_fn_set(base: u32, dmax: Option<u32>, mask: u64) -> FragmentNumberSet {
-    match dmax {
-        None => FragmentNumberSet::new(base, []),
-        Some(d) => {
-            let lower = (0..d).filter(move |i| (mask >> (*i % 64)) & 1 == 1).map(move |i| base + i);
-            FragmentNumberSet::new(base, core::iter::once(base + d).chain(lower))
+/// A FragmentNumberSet with an arbitrary base and the members {base, base+2, base+32, base+33}
+/// (numBits 34), obtained from the real element decoder applied to a little-endian wire image with
+/// concrete numBits / bitmap words (a symbolic bitmap is not tractable for this decoder, see C07).
+pub fn fn_set_34(base: u32) -> FragmentNumberSet {
+    let mut b = [0u8; 16];
+    let x = [base.to_le_bytes(), 34u32.to_le_bytes(), 0xa000_0000u32.to_le_bytes(), 0xc000_0000u32.to_le_bytes()];
+    let mut i = 0;
+    while i < 16 {
+        b[i] = x[i / 4][i % 4];
+        i += 1;
+    }
+    let mut d = &b[..];
+    match FragmentNumberSet::try_read_from_bytes(&mut d, &Endianness::LittleEndian) {
+        Ok(s) => s,
+        Err(_) => {
+            assert!(false, "harness: FragmentNumberSet image rejected");
+            unreachable!()
+        }
+    }
+}
+
+/// The two calls one arm of the dispatcher in RtpsMessageRead::try_from makes for the submessage at
+/// offset 20: the real SubmessageHeaderRead::try_read_from_bytes, then the caller applies the
+/// kind's real try_from_bytes to the returned body slice. Used where the whole dispatcher (all
+/// twelve decoders in one harness) is too expensive; the dispatcher itself is exercised by
+/// c08_heartbeat / c08_big_endian_decode and the C06 harnesses.
+pub fn sub_at_20<'a>(img: &'a [u8], header: &RtpsMessageHeader) -> (SubmessageHeaderRead, &'a [u8]) {
+    let p = header.guid_prefix();
+    let mut i = 0;
+    while i < 12 {
+        assert!(img[8 + i] == p[i], "C08: guid prefix bytes of the RTPS header");
+        i += 1;
+    }
+    let mut v = &img[20..];
+    match SubmessageHeaderRead::try_read_from_bytes(&mut v) {
+        Ok(h) => {
+            assert!(h.submessage_length() as usize == v.len(), "C08: submessage_length differs from the bytes that follow");
+            (h, v)
+        }
+        Err(_) => {
+            assert!(false, "C08: submessage header rejected");
+            unreachable!()
         }
     }
 }
